@@ -333,6 +333,12 @@ def dict_case(draw, tier):
     root = draw(dict_node(lays, 0))
     if count_structs(root) == 0:     # load_json_dict documents that at least one placeholder must be present
         root['items'][0][1] = draw(structure(lays, small=True))
+    if draw(st.integers(0, 4)) == 0:
+        # more than ten structures: the placeholders DICTOBS10, DICTOBS11 ... have DICTOBS1 as a prefix
+        nw = draw(st.integers(11 - min(count_structs(root), 5), 14))
+        have = set(k for k, _ in root['items'])
+        key = 'wide' if 'wide' not in have else 'wide_%d' % len(have)
+        root['items'].append([key, {'t': 'dict', 'items': [['w%02d' % i, draw(structure(lays, small=True))] for i in range(nw)]}])
     tr = {'how': 'dict', 'gz': draw(st.booleans()), 'indent': draw(st.sampled_from([1, 1, 0, None])), 'full': draw(st.booleans()),
           'desc': draw(st.one_of(st.just(''), _text(10))), 'ext': draw(st.sampled_from(['', '.json']))}
     return {'layouts': lays, 'root': root, 'tr': tr}
